@@ -31,7 +31,7 @@ NONSQUARE = [[[[0, 0], [11, 7]], [[12, 0], [23, 3]], [[12, 4], [23, 7]]],
 
 
 def scenarios(tier, seed):
-    n = 3 if tier == "quick" else 10
+    n = 6 if tier == "quick" else 10
     return [{"kind": "plate", "seed": seed * 1000 + 950, "ndims": 2, "nf": 3, "nfiles": 2, "layout": "shuffled", "n0": [24, 8],
              "levels": NONSQUARE, "geo_lo": [1.0, -0.5], "dx0": [0.25, 0.5], "ncombos": 6}] + [{"kind": "plate", "seed": seed * 1000 + 900 + i, "ndims": 2, "nf": [3, 2, 4][i % 3], "nlevels": [3, 2, 1][i % 3],
              "nfiles": [2, 3, 1][i % 3], "layout": ["shuffled", "roundrobin"][i % 2], "n0": [[32, 16], [16, 48], [24, 8]][i % 3],
